@@ -611,6 +611,52 @@ def c11_cli(ctx, broken):
                                         family=fam, sites=sites, genome=base, samples=["".join(x) for x in seqs])
         if len(samples) < 2:
             samples.append({"family": fam, "nsamples": nsamp, "k": k, "threads": threads_set, "reps": reps, "kmers": len(base_out["build"][1])})
+    # files built with --single-strand, the samples in different orientations: the two strands of a k-mer
+    # are separate rows, in an order that changes from build to build (hash seeds). `ska lo` reads both
+    # strands of every row, so its result must not depend on which row it meets first: the same input
+    # built several times, each file through lo with several thread counts
+    for _ss in range(4 if thorough else 2):
+        d = fresh_dir(ctx, "c11ss")
+        k = rnd.choice([15, 21, 31, 33])
+        L = 500
+        nsamp = rnd.randint(3, 6)
+        base = rand_genome(rnd, L)
+        sites = sorted(rnd.sample(range(2 * k, L - 2 * k, 2 * k + 3), 3))
+        seqs = [list(base) for _ in range(nsamp)]
+        for p_ in sites:
+            alt_ = rnd.choice([x for x in "ACGT" if x != base[p_]])
+            carriers = rnd.sample(range(nsamp), rnd.randint(1, nsamp - 1))
+            for c_ in carriers:
+                seqs[c_][p_] = alt_
+        files = []
+        for si in range(nsamp):
+            f = os.path.join(d, f"s{si}.fa")
+            sq = "".join(seqs[si])
+            write_fasta(f, [revcomp(sq) if si % 2 else sq])
+            files.append(f)
+        first = None
+        for b_ in range(3):
+            code, out, err = run_ok(["build", "-o", os.path.join(d, f"b{b_}"), "-k", str(k), "--single-strand"] + files, d)
+            if code != 0:
+                return viol("build --single-strand failed", stderr=err[-300:])
+            for t in ([1, 4, 8] if thorough else [1, 4]):
+                for extra in ([], ["-m", "1"]):
+                    pref = os.path.join(d, f"lo{b_}_{t}_{len(extra)}")
+                    code, out, err = run_ok(["lo", os.path.join(d, f"b{b_}.skf"), pref, "--threads", str(t)] + extra, d)
+                    evals += 1
+                    if code != 0:
+                        return viol("lo failed on a single-strand file", threads=t, stderr=err[-300:], k=k, samples=["".join(x) for x in seqs])
+                    cur = (tuple(extra), lo_free_canon(pref))
+                    key_ = tuple(extra)
+                    if first is None:
+                        first = {}
+                    if key_ not in first:
+                        first[key_] = cur
+                        nontriv += 1
+                    elif first[key_] != cur:
+                        return viol("ska lo on a file built with --single-strand: the result differs between separately built files of the same input (or between thread counts)",
+                                    build=b_, threads=t, options=extra, k=k, genome=base, sites=sites, samples=["".join(x) for x in seqs],
+                                    first=str(first[key_][1])[:600], this=str(cur[1])[:600])
     return {"known": sorted(set(known_hits)),
             "summary": {"evaluations": evals, "nontrivial": nontriv, "known_finding_hits": len(known_hits), "matrix": {"threads": threads_set, "reps": reps, "sample_counts": sample_counts},
                         "what": "build/align/map(aln,vcf)/distance/lo -r with skf and sequence-file input; identical output (tables and align columns up to order) vs the first single-threaded run; every command must succeed for every thread count"},
@@ -1296,11 +1342,16 @@ def c03_cli(ctx, broken):
             f = os.path.join(d, f"s{si}.fa")
             write_fasta(f, recs)
             files.append(f)
-        args = ["build", "-o", os.path.join(d, "x"), "-k", str(k), "--threads", str(threads)] + ([] if rc else ["--single-strand"]) + files
+        # the output prefix as users write it: plain, with dots (a k value, a version), or already ending in .skf
+        pref, skf_path = out_prefix(d, "x", tries)
+        args = ["build", "-o", pref, "-k", str(k), "--threads", str(threads)] + ([] if rc else ["--single-strand"]) + files
         code, out, err = ska(args, d)
         if code != 0:
             return {"summary": {"evaluations": evals, "nontrivial": nontriv}, "violation": {"kind": "c03-family", "what": "build failed", "stderr": err[-300:], "k": k, "threads": threads, "family": seqs}}
-        code, out, err = ska_out(["align", os.path.join(d, "x.skf"), "--min-freq", "1", "--threads", str(threads)], d, tries)
+        if not os.path.exists(skf_path):
+            return {"summary": {"evaluations": evals, "nontrivial": nontriv},
+                    "violation": {"kind": "c03-family", "what": f"`ska build -o {os.path.basename(pref)}` did not write {os.path.basename(skf_path)}", "files_written": sorted(x for x in os.listdir(d) if x.endswith('.skf')), "k": k}}
+        code, out, err = ska_out(["align", skf_path, "--min-freq", "1", "--threads", str(threads)], d, tries)
         evals += 1
         if code != 0:
             return {"summary": {"evaluations": evals, "nontrivial": nontriv}, "violation": {"kind": "c03-family", "what": "align failed", "stderr": err[-300:], "k": k, "family": seqs}}
@@ -1505,17 +1556,20 @@ def lo_pipe_stream(ctx, rnd, nfam, nrand, flavour):
                         seqs[c][j] = ""
         d = fresh_dir(ctx, "lopipe")
         files = []
+        # one family in four is a single-strand build with the samples in different orientations:
+        # the two strands of a k-mer are then separate rows and their sample sets are merged
+        single = rnd.random() < 0.25
         for i, sq in enumerate(seqs):
             f = os.path.join(d, f"s{i}.fa")
-            write_fasta(f, ["".join(sq)])
+            write_fasta(f, [revcomp("".join(sq)) if (single and rnd.random() < 0.5) else "".join(sq)])
             files.append(f)
-        info = build_and_nk(ctx, d, k, True, files)
+        info = build_and_nk(ctx, d, k, not single, files)
         if info["status"] != "ok":
             continue
         names, table = nk_table(info)
         w = 64 if k <= 31 else 128
         tt = ",".join(names) + "|" + ",".join(f"{a}:{b}" for a, b in table.items())
-        line = (f"lo_pipe w={w} k={k} rc=1 table={tt} m={rnd.choice(['0/1', '1/10', '1/4', '1/2', '1/1'])} "
+        line = (f"lo_pipe w={w} k={k} rc={0 if single else 1} table={tt} m={rnd.choice(['0/1', '1/10', '1/4', '1/2', '1/1'])} "
                 f"depth={rnd.choice([0, 1, 2, 4, 4])} ik={rnd.choice([0, 2, 2, 3])}")
         if rnd.random() < 0.5:
             # with a reference: the ancestor, possibly on the other strand, case-masked, with an
@@ -2112,8 +2166,12 @@ def map_via_cli(ctx, line):
     kv = kvs(line)
     w, k, rc = kv["w"], int(kv["k"]), kv["rc"] == "1"
     d = fresh_dir(ctx, "mapcli")
-    ref = os.path.join(d, "ref.fa")
-    write_fasta(ref, [("" if r == "." else r) for r in kv["ref"].split(",")])
+    # the reference in one of the forms such files come in: one line per record, wrapped, CRLF, gzip (one or several members)
+    form = sum(line.encode()) // 7
+    gzf = [False, False, True, "multi"][form % 4]
+    ref = os.path.join(d, "ref.fa" + (".gz" if gzf else ""))
+    write_fasta(ref, [("" if r == "." else r) for r in kv["ref"].split(",")],
+                wrap=[None, 7, 60, None][(form // 4) % 4], crlf=((form // 16) % 3 == 0), gz=gzf)
     skf = os.path.join(d, "x.skf")
     if "table" in kv:
         core.run_impl(ctx, [f"mkskf w={w} k={k} rc={kv['rc']} table={kv['table']} out={skf}"], "mk")
@@ -2277,6 +2335,126 @@ def c12_cli(ctx, broken):
     return {"summary": {"evaluations": evals, "nontrivial": nontriv, "options": opts,
                         "what": "read cases through `ska build -f` with --min-count/--min-qual/--qual-filter and `ska nk --full-info`, k <= 31 and k >= 33, vs model and counting specification"},
             "samples": samples}
+
+
+def c06_big_cli(ctx, broken):
+    """scale: an alignment of more than 65536 columns (thorough: more than 131072). With no site filter and
+    --min-freq 0 every stored split k-mer is one column: the multiset of columns must be the multiset of the
+    rows `ska nk --full-info` lists, to stdout and to -o"""
+    rnd = random.Random(ctx.seed * 961748941 + 11)
+    thorough = ctx.tier == "thorough"
+    evals = nontriv = 0
+    d = fresh_dir(ctx, "c06big")
+    k = rnd.choice([31, 33])
+    L = 140000 if thorough else 72000
+    base = rand_genome(rnd, L)
+    files = []
+    for i in range(3):
+        sq = list(base)
+        for p_ in rnd.sample(range(L), L // 400):
+            sq[p_] = rnd.choice([x for x in "ACGT" if x != sq[p_]])
+        if i == 2:
+            del sq[L // 3: L // 3 + 2000]          # a stretch missing from one sample: columns with '-'
+        f = os.path.join(d, f"g{i}.fa")
+        write_fasta(f, ["".join(sq)], wrap=80)
+        files.append(f)
+    code, out, err = ska(["build", "-o", os.path.join(d, "big"), "-k", str(k), "--threads", "4"] + files, d)
+    if code != 0:
+        return {"summary": {"evaluations": evals, "nontrivial": nontriv}, "violation": {"kind": "c06-big", "what": "build failed", "stderr": err[-300:]}}
+    names, tab = nk_table(parse_nk(ska(["nk", "--full-info", os.path.join(d, "big.skf")], d)[1]))
+    want = sorted(tab.values())
+    for style in (0, 1):
+        code, out, err = ska_out(["align", os.path.join(d, "big.skf"), "--filter", "no-filter", "--min-freq", "0"], d, style)
+        evals += 1
+        seqs = [l for l in out.splitlines() if not l.startswith(">")]
+        lens = sorted(set(len(x) for x in seqs))
+        got = sorted("".join(col) for col in zip(*seqs)) if seqs else []
+        nontriv += 1
+        if code != 0 or len(lens) != 1 or got != want:
+            from collections import Counter
+            surplus = list((Counter(got) - Counter(want)).items())[:5]
+            missing = list((Counter(want) - Counter(got)).items())[:5]
+            return {"summary": {"evaluations": evals, "nontrivial": nontriv},
+                    "violation": {"kind": "c06-big", "what": "align --filter no-filter --min-freq 0 does not emit exactly one column per stored split k-mer",
+                                  "k": k, "stored_kmers": len(want), "columns": len(got), "sequence_lengths": lens, "surplus": surplus, "missing": missing,
+                                  "exit": code, "seed": ctx.seed, "to": "stdout" if style % 2 == 0 else "-o file"}}
+    return {"summary": {"evaluations": evals, "nontrivial": nontriv, "columns": len(want),
+                        "what": "alignment of more than 65536 columns: columns (as a multiset) = stored rows, stdout and -o"},
+            "samples": []}
+
+
+def joint_reads_cli(ctx, broken):
+    """several read samples in ONE `ska build -f list`: column j of the joint file must be the file of
+    sample j built alone with the same options (T02_samples / T11: a sample's dictionary does not depend
+    on its neighbours), for the list in order and reversed, one and several threads, fewer and more than
+    ten samples (the parallel route). Every sample holds k-mers seen exactly min-count - 1 times that an
+    earlier AND a later sample of the list hold often enough: nothing may be carried from one sample's
+    counting filter to the next."""
+    rnd = random.Random(ctx.seed * 7368787 + 29)
+    thorough = ctx.tier == "thorough"
+    evals = nontriv = 0
+    for (nsamp, threads) in ([(3, 1), (12, 1), (12, 4), (23, 8)] if thorough else [(3, 1), (12, 4)]):
+        d = fresh_dir(ctx, "jointreads")
+        k = rnd.choice([15, 21, 31, 33])
+        mc = rnd.choice([2, 2, 3, 5])
+        qf = rnd.choice(["no-filter", "middle", "strict"])
+        rc = rnd.random() < 0.7
+        rlen = k + 25
+        shared = [rand_genome(rnd, rlen) for _ in range(4)]
+        weak = [rand_genome(rnd, rlen) for _ in range(nsamp)]
+        lst_lines = []
+        for j in range(nsamp):
+            reads = []
+            for g in shared:
+                reads += [g] * mc
+            # own weak region: one observation short; the neighbours' weak regions: solid here
+            reads += [weak[j]] * (mc - 1)
+            reads += [weak[(j + 1) % nsamp]] * mc + [weak[(j - 1) % nsamp]] * (mc + 1)
+            rnd.shuffle(reads)
+            reads = [revcomp(r) if (rc and rnd.random() < 0.5) else r for r in reads]
+            half = len(reads) // 2
+            paths = []
+            for tag, part in (("1", reads[:half]), ("2", reads[half:])):
+                pth = os.path.join(d, f"s{j}_{tag}.fastq")
+                with open(pth, "w") as f:
+                    f.write("".join(f"@r{i}\n{r}\n+\n{'I' * len(r)}\n" for i, r in enumerate(part)))
+                paths.append(pth)
+            lst_lines.append(f"s{j}\t{paths[0]}\t{paths[1]}")
+        opts = ["-k", str(k), "--min-count", str(mc), "--qual-filter", qf] + ([] if rc else ["--single-strand"])
+        # each sample alone
+        alone = []
+        for j in range(nsamp):
+            lj = os.path.join(d, f"l{j}.tsv")
+            open(lj, "w").write(lst_lines[j] + "\n")
+            code, out, err = ska(["build", "-o", os.path.join(d, f"a{j}"), "-f", lj] + opts, d)
+            if code != 0:
+                return {"summary": {"evaluations": evals, "nontrivial": nontriv},
+                        "violation": {"kind": "joint-reads", "what": "single-sample read build failed", "stderr": err[-300:], "options": opts}}
+            names, tab = nk_table(parse_nk(ska(["nk", "--full-info", os.path.join(d, f"a{j}.skf")], d)[1]))
+            alone.append(tab)
+        for order_name, order in (("in order", list(range(nsamp))), ("reversed", list(range(nsamp))[::-1])):
+            lj = os.path.join(d, "joint.tsv")
+            open(lj, "w").write("".join(lst_lines[j] + "\n" for j in order))
+            code, out, err = ska(["build", "-o", os.path.join(d, "joint"), "-f", lj, "--threads", str(threads)] + opts, d)
+            evals += 1
+            if code != 0:
+                return {"summary": {"evaluations": evals, "nontrivial": nontriv},
+                        "violation": {"kind": "joint-reads", "what": "joint read build failed", "stderr": err[-300:], "options": opts, "threads": threads}}
+            names, tab = nk_table(parse_nk(ska(["nk", "--full-info", os.path.join(d, "joint.skf")], d)[1]))
+            for col, j in enumerate(order):
+                colj = {key: cells[col] for key, cells in tab.items() if cells[col] != "-"}
+                want = {key: cells[0] for key, cells in alone[j].items()}
+                nontriv += 1
+                if colj != want or names[col] != f"s{j}":
+                    extra = sorted(set(colj) - set(want))[:5]
+                    missing = sorted(set(want) - set(colj))[:5]
+                    return {"summary": {"evaluations": evals, "nontrivial": nontriv},
+                            "violation": {"kind": "joint-reads", "what": "a sample's column in a joint read build differs from the same sample built alone",
+                                          "sample": j, "position_in_list": col, "list": order_name, "threads": threads, "nsamples": nsamp, "options": opts,
+                                          "kmers_alone": len(want), "kmers_in_joint_build": len(colj), "only_in_joint": extra, "only_alone": missing, "dir_layout": "s<j>_1.fastq / s<j>_2.fastq; weak region of sample j is seen min-count - 1 times"}}
+    return {"summary": {"evaluations": evals, "nontrivial": nontriv,
+                        "what": "joint read builds (3-23 FASTQ samples, 1-8 threads, list in order and reversed) vs each sample built alone; every sample holds k-mers one observation short of --min-count that its neighbours hold often enough"},
+            "samples": []}
 
 
 def freq_sweep_cli(ctx, broken):
